@@ -576,6 +576,7 @@ func (i *interpreter) runPath(fn *ssa.Function, prefix []Decision) (res PathResu
 	i.specDepth = 0
 	i.nondetCount = 0
 	i.lnArgs, i.expArgs = nil, nil
+	i.axiomSeen = nil
 	i.resetThreads()
 	defer func() {
 		r := recover()
